@@ -18,6 +18,7 @@ Not decided: equality of the loaded values with the file contents, dtype asserti
 import ast
 
 from vlib import q, fx
+from vlib.pat import Pat, returned
 from vlib.fx import Fx, P, K, O, L, R, U, A
 from vlib.front import unparse, dotted, const_value, AnchorMissing
 
@@ -202,40 +203,82 @@ def u1_units(ctx):
     repo = ctx.repo
     cls = repo.cls(M, 'TemplateModel')
     fi = repo.lookup_method(cls, '_load_spike_samples')
-    rate = 'self.sample_rate'
-    ok_div = ok_mul = False
-    node_d = node_m = None
+    P = Pat(fi)
+    # roles: the array read from spike_times.npy is in samples; the one read from spikes.times*.npy is in seconds
+    rd_s = P.stmt('V_samples = self._read_array(V_path)')
+    rd_t = None
     for a in fi.nodes(ast.Assign):
-        v = a.value
-        tgt = unparse(a.targets[0])
-        if isinstance(v, ast.BinOp) and isinstance(v.op, ast.Div) and unparse(v.right) == rate and tgt == 'times':
-            ok_div, node_d = unparse(v.left) == 'samples', a
-        if tgt == 'times' and isinstance(v, ast.BinOp) and isinstance(v.op, ast.Mult):
-            node_d = a
-        if tgt == 'samples' and 'times' in q.names_in(v) and not (isinstance(v, ast.Call) and q.method_name(v) == '_read_array'):
-            node_m = a
-            e = v
-            while isinstance(e, ast.Call) and q.method_name(e) in ('astype', 'round') and isinstance(e.func, ast.Attribute):
-                e = e.func.value if q.method_name(e) == 'astype' else (e.args[0] if e.args else e.func.value)
-            rounded = any(isinstance(c, ast.Call) and q.method_name(c) in ('round', 'rint', 'around') for c in ast.walk(v))
+        if a is not rd_s and Pat(fi, P.b).m('V_times = self._read_array(V_tpath)', a, stmt=True):
+            pth = [x for x in fi.nodes(ast.Assign) if isinstance(x.targets[0], ast.Name) and x.targets[0].id == a.value.args[0].id and 'spikes.times' in unparse(x.value)]
+            if pth:
+                rd_t = a
+                P.m('V_times = self._read_array(V_tpath)', a, stmt=True)
+    if rd_s is None or rd_t is None:
+        ctx.undecided('C04.U1', fi, 'the reads of spike_times.npy (samples) and spikes.times*.npy (seconds) were not both recognised')
+    else:
+        div_good = P.stmt('V_times = V_samples / self.sample_rate')
+        div_bad = P.stmt('V_times = V_samples * self.sample_rate') or P.stmt('V_times = V_samples') or P.stmt('V_times = V_samples // self.sample_rate') or \
+            P.stmt('V_times = self.sample_rate / V_samples')
+        if div_good is not None:
+            ctx.holds('C04.U1', fi, 'spike times (s) = spike samples / sample_rate', div_good)
+        elif div_bad is not None:
+            ctx.violated('C04.U1', fi, div_bad, 'spike times are not computed as samples / sample_rate (`%s`)' % unparse(div_bad))
+        else:
+            ctx.undecided('C04.U1', fi, 'the conversion of spike_times.npy (samples) to seconds was not recognised')
+        conv = [a for a in fi.nodes(ast.Assign) if isinstance(a.targets[0], ast.Name) and a.targets[0].id == P.name('V_samples') and a is not rd_s and
+                P.name('V_times') in q.names_in(a.value)]
+        if not conv:
+            ctx.undecided('C04.U1', fi, 'the conversion of ALF spike times (seconds) to samples was not recognised')
+        else:
+            v = conv[0].value
+            rounded = any(isinstance(c, ast.Call) and (q.method_name(c) in ('round', 'rint', 'around') or dotted(c.func) in ('np.round', 'np.rint', 'np.around', 'round')) for c in ast.walk(v))
             core = [b for b in ast.walk(v) if isinstance(b, ast.BinOp)]
-            ok_mul = rounded and len(core) == 1 and isinstance(core[0].op, ast.Mult) and {unparse(core[0].left), unparse(core[0].right)} == {'times', rate}
-    ctx.check(ok_div, 'C04.U1', fi, node_d or '_load_spike_samples', 'spike times (s) = spike samples / sample_rate',
-              'spike times are not computed as samples / sample_rate (`%s`)' % (unparse(node_d) if node_d is not None else '?'))
-    ctx.check(ok_mul, 'C04.U1', fi, node_m or '_load_spike_samples', 'for ALF datasets spike samples = round(times * sample_rate)',
-              'ALF spike samples are not round(times * sample_rate) (`%s`)' % (unparse(node_m) if node_m is not None else '?'))
-    # returned pair order
-    r = [x for x in fi.returns() if isinstance(x.value, ast.Tuple)]
-    ctx.check(bool(r) and [unparse(e) for e in r[-1].value.elts] == ['samples', 'times'], 'C04.U1', fi, r[-1] if r else '_load_spike_samples',
-              '_load_spike_samples returns (samples, times)', 'the (samples, times) pair is returned in another order')
+            mul = len(core) == 1 and Pat(fi, P.b).m('V_times * self.sample_rate', core[0])
+            if rounded and mul:
+                ctx.holds('C04.U1', fi, 'for ALF datasets spike samples = round(times * sample_rate)', conv[0])
+            elif len(core) == 1 and (not mul or not rounded):
+                ctx.violated('C04.U1', fi, conv[0], 'ALF spike samples are not round(times * sample_rate) (`%s`)%s' % (unparse(v), '' if rounded else ': truncation instead of rounding loses a sample '
+                             'whenever times * rate falls just below an integer'))
+            else:
+                ctx.undecided('C04.U1', fi, 'ALF sample conversion `%s` not in a recognised form' % unparse(v)[:60], conv[0])
+        # returned pair order
+        r = [(r_, x) for r_, x in returned(fi) if isinstance(x, ast.Tuple) and len(x.elts) == 2]
+        raw = [r_.value for r_ in fi.returns() if isinstance(r_.value, ast.Tuple) and len(r_.value.elts) == 2]
+        if not raw and not r:
+            ctx.undecided('C04.U1', fi, 'the returned (samples, times) pair was not recognised')
+        else:
+            tup = raw[-1] if raw else r[-1][1]
+            g = Pat(fi, P.b).m('(V_samples, V_times)', tup)
+            b_ = Pat(fi, P.b).m('(V_times, V_samples)', tup)
+            if g:
+                ctx.holds('C04.U1', fi, '_load_spike_samples returns (samples, times)', tup)
+            elif b_:
+                ctx.violated('C04.U1', fi, tup, 'the (samples, times) pair is returned in another order')
+            else:
+                ctx.undecided('C04.U1', fi, 'returned pair `%s` not recognised' % unparse(tup), tup)
     ld = repo.lookup_method(cls, '_load_data')
     un = [a for a in ld.nodes(ast.Assign) if isinstance(a.value, ast.Call) and q.method_name(a.value) == '_load_spike_samples']
-    ctx.check(bool(un) and unparse(un[0].targets[0]).replace(' ', '') in ('(self.spike_samples,self.spike_times)', 'self.spike_samples,self.spike_times'),
-              'C04.U1', ld, un[0] if un else '_load_data', 'the model stores (spike_samples, spike_times) in that order',
-              'spike_samples / spike_times are bound in the wrong order')
+    if not un:
+        ctx.undecided('C04.U1', ld, 'the call of _load_spike_samples in _load_data was not found')
+    else:
+        g = Pat().m('(self.spike_samples, self.spike_times)', un[0].targets[0])
+        b_ = Pat().m('(self.spike_times, self.spike_samples)', un[0].targets[0])
+        if g:
+            ctx.holds('C04.U1', ld, 'the model stores (spike_samples, spike_times) in that order', un[0])
+        elif b_:
+            ctx.violated('C04.U1', ld, un[0], 'spike_samples / spike_times are bound in the wrong order')
+        else:
+            ctx.undecided('C04.U1', ld, 'binding of the loaded (samples, times) pair not recognised', un[0])
     fr = repo.lookup_method(cls, '_load_spike_reorder')
-    okr = any(isinstance(a.value, ast.BinOp) and isinstance(a.value.op, ast.Div) and unparse(a.value.right) == rate for a in fr.nodes(ast.Assign))
-    ctx.check(okr, 'C04.U1', fr, '_load_spike_reorder', 'reordered times = samples / sample_rate', 'reordered spike times are not samples / sample_rate')
+    PR = Pat(fr)
+    g = PR.stmt('V_t = V_s / self.sample_rate') or PR.expr('ANY / self.sample_rate')
+    b_ = PR.stmt('V_t = V_s * self.sample_rate') if g is None else None
+    if g is not None:
+        ctx.holds('C04.U1', fr, 'reordered times = samples / sample_rate', g)
+    elif b_ is not None:
+        ctx.violated('C04.U1', fr, b_, 'reordered spike times are not samples / sample_rate')
+    else:
+        ctx.undecided('C04.U1', fr, 'conversion of the reordered spike times not recognised')
 
 
 def a1_traces(ctx):
@@ -250,9 +293,10 @@ def a1_traces(ctx):
     if sub:
         okg = True
         why = ''
+        tr_name = unparse(sub[0].value) if isinstance(sub[0].value, ast.Name) else 'traces'
         for ifn, br in q.enclosing_ifs(fi, sub[0]):
-            t = unparse(ifn.test).replace(' ', '')
-            allowed = t in ('tracesisnotNone', 'tracesisnotNoneand%sisnotNone' % cm, '%sisnotNoneandtracesisnotNone' % cm, 'traces', '%sisnotNone' % cm) and br == 'body'
+            allowed = br == 'body' and Pat().any(['%s is not None' % tr_name, '%s is not None and %s is not None' % (tr_name, cm), tr_name, '%s is not None' % cm,
+                                                   '%s is not None and len(%s) > 0' % (tr_name, cm)], ifn.test)
             if not allowed:
                 okg, why = False, unparse(ifn.test)
         ctx.check(okg, 'C04.A1', fi, sub[0], 'the channel-map selection is applied to every raw reader (it also drops raw channels that are not in the map)',
@@ -320,9 +364,15 @@ def d1_defaults(ctx):
               'np.load is given the requested map mode', 'np.load ignores the requested mmap_mode')
     cls = repo.cls(M, 'TemplateModel')
     rd = repo.lookup_method(cls, '_read_array')
-    r = [x for x in rd.returns() if x.value is not None]
-    oks = bool(r) and isinstance(r[-1].value, ast.Call) and q.method_name(r[-1].value) == 'squeeze'
-    ctx.check(oks, 'C04.D1', rd, r[-1] if r else '_read_array', 'every array read for the model is squeezed', 'arrays are not squeezed on load ((n,1) vectors stay 2-D)')
+    rx = [x for _, x in returned(rd)]
+    oks = bool(rx) and all(any(isinstance(c, ast.Call) and (q.method_name(c) == 'squeeze' or dotted(c.func) == 'np.squeeze') for c in ast.walk(x)) for x in rx)
+    plain = bool(rx) and all(isinstance(x, ast.Call) and dotted(x.func) in ('read_array', 'np.load') for x in rx)
+    if oks:
+        ctx.holds('C04.D1', rd, 'every array read for the model is squeezed', rx[-1])
+    elif plain:
+        ctx.violated('C04.D1', rd, rx[-1], 'arrays are not squeezed on load ((n,1) vectors stay 2-D)')
+    else:
+        ctx.undecided('C04.D1', rd, 'return of _read_array not in a recognised form')
     raises = any(isinstance(n, ast.Raise) and 'IOError' in unparse(n) for n in ast.walk(rd.node))
     ctx.check(raises, 'C04.D1', rd, '_read_array', 'a missing optional file surfaces as IOError (caught by the loaders that have a default)',
               '_read_array does not raise IOError for a missing file: the default branches of the loaders are dead')
@@ -337,16 +387,37 @@ def d1_defaults(ctx):
                         if isinstance(s_, ast.Return):
                             out.append((fi, s_))
         return fi, out
+
+    def ret_text(fi, r_):
+        if r_.value is None:
+            return 'None'
+        v = r_.value
+        if isinstance(v, ast.Name):
+            # a temporary assigned in the same handler body
+            for st_ in ast.walk(fi.node):
+                if isinstance(st_, ast.Assign) and isinstance(st_.targets[0], ast.Name) and st_.targets[0].id == v.id and st_.lineno <= r_.lineno:
+                    cand = st_.value
+            try:
+                v = cand
+            except NameError:
+                pass
+        return unparse(v).replace(' ', '')
     exp = {'_load_channel_probes': ('np.zeros(self.n_channels,dtype=np.int32)', 'zero probe index per channel'),
            '_load_channel_shanks': ('np.zeros(self.n_channels,dtype=np.int32)', 'zero shank index per channel'),
            '_load_similar_templates': ('np.zeros((self.n_templates,self.n_templates))', 'zero similarity matrix (n_templates x n_templates)'),
            '_load_amplitudes': ('None', 'amplitudes None')}
     for lname, (want, what) in exp.items():
         fi, outs = default_of(lname)
-        got = [unparse(r_.value).replace(' ', '') if r_.value is not None else 'None' for _, r_ in outs]
+        got = [ret_text(fi, r_) for _, r_ in outs]
         alt = want.replace(',dtype=np.int32', ',dtype=int')
-        ctx.check(bool(got) and all(g in (want, alt) or (want.startswith('np.zeros(self.n_channels') and g.startswith('np.zeros(self.n_channels')) for g in got),
-                  'C04.D1', fi, outs[0][1] if outs else lname, 'absent file -> %s' % what, '%s: default for an absent file is `%s`, expected %s' % (lname, got, what))
+        good = bool(got) and all(g in (want, alt) or (want.startswith('np.zeros(self.n_channels') and g.startswith('np.zeros(self.n_channels')) for g in got)
+        recognisable = bool(got) and all(g == 'None' or g.startswith(('np.zeros(', 'np.ones(', 'np.full(', 'np.arange(', 'np.empty(', 'np.eye(')) or g.lstrip('-').isdigit() for g in got)
+        if good:
+            ctx.holds('C04.D1', fi, 'absent file -> %s' % what, outs[0][1])
+        elif recognisable:
+            ctx.violated('C04.D1', fi, outs[0][1], '%s: default for an absent file is `%s`, expected %s' % (lname, got, what))
+        else:
+            ctx.undecided('C04.D1', fi, '%s: default for an absent file (%s) not in a recognised form' % (lname, got))
     ld_ = repo.lookup_method(cls, '_load_data')
     wm_def = None
     for t in ld_.nodes(ast.Try):
@@ -355,9 +426,19 @@ def d1_defaults(ctx):
                 for s_ in h.body:
                     if isinstance(s_, ast.Assign) and unparse(s_.targets[0]) == 'self.wm':
                         wm_def = s_
-    ctx.check(wm_def is not None and unparse(wm_def.value).replace(' ', '') in ('np.eye(nc)', 'np.eye(self.n_channels)', 'np.identity(nc)'),
-              'C04.D1', ld_, wm_def or '_load_data', 'absent whitening matrix -> identity of size n_channels',
-              'default whitening matrix is `%s`, expected the identity of size n_channels' % (unparse(wm_def.value) if wm_def is not None else 'missing'))
+    if wm_def is None:
+        ctx.undecided('C04.D1', ld_, 'default of the whitening matrix (handler around _load_wm) not recognised')
+    else:
+        wx = ld_.expand(wm_def.value)
+        good = Pat().any(['np.eye(self.n_channels)', 'np.identity(self.n_channels)', 'np.eye(self.n_channels, REST)', 'np.eye(len(self.channel_mapping))', 'np.eye(self.channel_mapping.shape[0])',
+                          'np.eye(self.channel_positions.shape[0])'], wx)
+        bad = not good and isinstance(wx, ast.Call) and dotted(wx.func) in ('np.zeros', 'np.ones', 'np.eye', 'np.identity', 'np.full', 'np.empty')
+        if good:
+            ctx.holds('C04.D1', ld_, 'absent whitening matrix -> identity of size n_channels', wm_def)
+        elif bad:
+            ctx.violated('C04.D1', ld_, wm_def, 'default whitening matrix is `%s`, expected the identity of size n_channels' % unparse(wx))
+        else:
+            ctx.undecided('C04.D1', ld_, 'default whitening matrix `%s` not in a recognised form' % unparse(wx), wm_def)
     # inverse: computed from wm with a matrix inverse
     cw = repo.lookup_method(cls, '_compute_wmi')
     inv = [c for c in cw.calls() if (dotted(c.func) or '').endswith('linalg.inv') or (dotted(c.func) or '').endswith('linalg.pinv')]
